@@ -58,6 +58,26 @@ def classes(rng, n):
   if n:
     imp[n - 1 - rng.randrange(min(n, 3))] = 1
   out['lateimpulse'] = imp
+  # early jump of the register length followed by a discrepancy in the tail (bits after the last full 64-bit word):
+  # about half the (word-aligned) length in leading zeros, then an impulse, then random or sparse bits
+  n0 = n - (n % 64)
+  if n > 70:
+    for tag, k in (('half', n0 // 2), ('halfm1', n0 // 2 - 1), ('halfp1', n0 // 2 + 1), ('nhalf', n // 2), ('third', n0 // 3)):
+      if 0 < k < n - 2:
+        out['zeros_%s_random' % tag] = [0] * k + [1] + [rng.getrandbits(1) for _ in range(n - k - 1)]
+        tail = [0] * (n - k - 1)
+        tail[-1 - rng.randrange(min(len(tail), max(1, n % 64 or 64)))] = 1
+        out['zeros_%s_impulse' % tag] = [0] * k + [1] + tail
+    # an LFSR of length about n0 / 2 (the register stops changing early), one bit flipped in the tail
+    L = max(2, n0 // 2 - rng.randrange(0, 3))
+    taps = [rng.getrandbits(1) for _ in range(L)]
+    taps[-1] = 1
+    seq = [rng.getrandbits(1) for _ in range(L)]
+    while len(seq) < n:
+      seq.append(sum(t * seq[-1 - j] for j, t in enumerate(taps)) % 2)
+    seq = seq[:n]
+    seq[n - 1 - rng.randrange(max(1, n % 64 or 1))] ^= 1
+    out['lfsr_half_tailflip'] = seq
   # LFSR-generated then one flipped bit exactly at a word boundary
   if n > 70:
     L = rng.choice([5, 17, 31, 32, 33])
@@ -95,7 +115,9 @@ def build_records(quick, rng, only_sid):
       continue
     for rep in range(reps):
       for cname, bits in classes(ctx.rng, n).items():
-        if ctx.quick and n > 260 and cname in ('one', 'trailzeros', 'leadzeros', 'sparse'):
+        if ctx.quick and n > 260 and cname in ('one', 'trailzeros', 'sparse', 'zeros_third_random', 'zeros_nhalf_impulse'):
+          continue
+        if ctx.quick and n > 330 and n not in (500, 641, 1000) and (cname.startswith('zeros_') or cname == 'lfsr_half_tailflip'):
           continue
         recs.append(lc_record(impls, bits, 'long-%d-%s-%d' % (n, cname, rep)))
   # long sequences: implementations against each other only
